@@ -54,6 +54,7 @@ enum Doc {
     Good(Vec<u8>),
     Truncated(Vec<u8>),
     Corrupt(Vec<u8>),
+    Raw(Vec<u8>),
 }
 
 #[derive(Clone, Debug)]
@@ -452,7 +453,7 @@ fn do_call(st: &mut TaskState, sh: &Shared, call: &Call) {
         Call::CtxDeserialize(doc) => {
             let fname = "wirefilter_deserialize_json_to_execution_context";
             let bytes = match doc {
-                Doc::Good(b) | Doc::Truncated(b) | Doc::Corrupt(b) => b,
+                Doc::Good(b) | Doc::Truncated(b) | Doc::Corrupt(b) | Doc::Raw(b) => b,
             };
             let reference = catch_unwind(AssertUnwindSafe(|| {
                 let mut d = serde_json::Deserializer::from_reader(&bytes[..]);
@@ -854,7 +855,18 @@ fn gen_calls(spec: &SchemeSpec, pool: &[MValue], n: usize, docs: &[Doc]) -> Vec<
             7 => {
                 let name = gen_name(spec);
                 let json = match std::str::from_utf8(&name).ok().and_then(|n| spec.field_index(n)) {
-                    Some(i) if chance(3, 4, "json.right") => serde_json::to_vec(&gen_value(&spec.fields[i].1, 3).to_lhs().unwrap()).unwrap(),
+                    Some(i) if chance(3, 4, "json.right") => {
+                        let val = gen_value(&spec.fields[i].1, 3);
+                        if chance(1, 4, "json.raw") {
+                            // byte strings written raw inside string literals (the buffer is bytes, not text)
+                            kernel::count("c20.raw_json");
+                            let mut out = Vec::new();
+                            crate::model::raw_json(&val, &mut out);
+                            out
+                        } else {
+                            serde_json::to_vec(&val.to_lhs().unwrap()).unwrap()
+                        }
+                    }
                     _ => {
                         let pool: [&[u8]; 6] = [b"1", b"\"s\"", b"[1,\"a\"]", b"{\"k\":1}", b"nul", b"[[\"k\",\"v\"]]"];
                         pool[choose(6, "json.pool")].to_vec()
@@ -912,6 +924,7 @@ fn render_call(c: &Call) -> String {
             Doc::Good(b) => format!("deserialize(good {}B)", b.len()),
             Doc::Truncated(b) => format!("deserialize(truncated {}B)", b.len()),
             Doc::Corrupt(b) => format!("deserialize(corrupt {}B)", b.len()),
+            Doc::Raw(b) => format!("deserialize(raw byte strings {}B)", b.len()),
         },
         other => format!("{other:?}"),
     }
@@ -1014,6 +1027,22 @@ fn run(ctx: &RunCtx) -> Result<(), Violation> {
         let at = choose(c.len(), "doc.flip_at");
         c[at] = b"{}[]\",:0x"[choose(9, "doc.flip_ch")];
         docs.push(Doc::Corrupt(c));
+    }
+    {
+        // the same context with byte strings written raw inside string literals
+        let mut raw = vec![b'{'];
+        for (i, val) in model.values.iter().enumerate() {
+            if let Some(val) = val {
+                if raw.len() > 1 {
+                    raw.push(b',');
+                }
+                raw.extend_from_slice(serde_json::to_string(&spec.fields[i].0).unwrap().as_bytes());
+                raw.push(b':');
+                crate::model::raw_json(val, &mut raw);
+            }
+        }
+        raw.push(b'}');
+        docs.push(Doc::Raw(raw));
     }
     // the value-tree defect (known finding of C14) does not apply here: the C API reads text
     let (shared_filter_text, shared_ast) = loop {
